@@ -308,6 +308,8 @@ def normalize(res, sc, tid):
                 ev.append({'e': 'PartTask', 'ph': 's', 'x': e['xid']})
         elif k == 'SrcRead':
             ev.append({'e': 'SrcRead', 'x': X(e), 'len': e['len']})
+        elif k == 'ExecShutdown':
+            ev.append({'e': 'ExecShutdown', 'stage': e.get('stage', '')})
         elif k in ('Deadlock', 'StepBudget'):
             ev.append({'e': 'Stuck', 'kind': k})
     # final observation
